@@ -98,9 +98,9 @@ def audit_axioms(modules: Dict[str, List[str]], tag: str) -> Tuple[Dict[str, Lis
     with LakeLock():
         rc, out = run(["lake", "env", "lean", path], cwd=LEAN_DIR, timeout=1800)
     res: Dict[str, List[str]] = {}
-    for m in re.finditer(r"'([^']+)' depends on axioms: \[([^\]]*)\]", out):
+    for m in re.finditer(r"'(.+?)' depends on axioms: \[([^\]]*)\]", out):
         res[m.group(1)] = [a.strip() for a in m.group(2).replace("\n", " ").split(",") if a.strip()]
-    for m in re.finditer(r"'([^']+)' does not depend on any axioms", out):
+    for m in re.finditer(r"'(.+?)' does not depend on any axioms", out):
         res[m.group(1)] = []
     return res, out
 
